@@ -22,6 +22,10 @@ import PyrollModel.HookOps
   The object a delegating implementation creates gets the input of the object it runs on, so one evaluation has one input
   state `s` (0 missing, 1 unusable, 2 supplied).
 
+  SOURCE TIE (T): whether the `discard` sits in the `finally` clause is not assumed here but CONSUMED from the generated
+  flag `Gen.C01.Hooks.callDiscardInFinally` (read from `HookFunction.__call__` on every run): `excUnmark` is what happens to
+  the mark of a call that ends in an exception.  The clean-up on the normal path is the same statement reached normally.
+
   `UState`/`ustep`: the registry machine of `HookOps` plus objects that stay (`HookHost.__cache__`, input state), used by
   attribute reads, `has_value` and `reevaluate_cache`, with the marks kept between the operations.
 -/
@@ -48,6 +52,12 @@ structure Flags where
   /-- the (plain) implementation takes the `cycle` argument and answers `None` when it is `True` -/
   aware : Nat → Bool
 
+/-- the marks after a call of `HookFunction.__call__` that ends in an EXCEPTION: the mark `k` of this call is discarded
+    if (and only if) the source has the `discard` in the `finally` clause of the `try` (GENERATED flag); a `discard` placed
+    after the `try` statement is not reached -/
+def excUnmark (m : List (Nat × Nat)) (k : Nat × Nat) : List (Nat × Nat) :=
+  if Gen.C01.Hooks.callDiscardInFinally then m.erase k else m
+
 /-- `get_result` on object `i` whose input is in state `s`, with the marks `act` as found; returns the marks as left. -/
 def evx (chainOf : Cls → List HF) (fl : Flags) (s : Nat) :
     Nat → List HF → List HF → Nat → Nat → List (Nat × Nat) → List Ev → XOut
@@ -62,14 +72,14 @@ def evx (chainOf : Cls → List HF) (fl : Flags) (s : Nat) :
         | b =>
           if fl.needs f.id && s != 2 then
             -- a wrapper that reads the input before its yield: `next(gen)` raises; `finally` discards the mark
-            ⟨.err (s == 0), tr ++ [.enter f.id], ((f.id, i) :: act).erase (f.id, i)⟩
+            ⟨.err (s == 0), tr ++ [.enter f.id], excUnmark ((f.id, i) :: act) (f.id, i)⟩
           else
           -- `_active_instances.add(key)`; runs to the yield; the chain of type(instance) is evaluated again
           let r := evx chainOf fl s fuel full full i depth ((f.id, i) :: act) (tr ++ [.enter f.id])
           -- `finally: _active_instances.discard(key)` - whatever the inner chain did
           let m := r.marks.erase (f.id, i)
           match r.res with
-          | .err k => ⟨.err k, r.tr, m⟩
+          | .err k => ⟨.err k, r.tr, excUnmark r.marks (f.id, i)⟩
           | .val v =>
             match wapply b v with
             | some x => ⟨.val (some x), r.tr ++ [.exit f.id], m⟩
@@ -82,7 +92,7 @@ def evx (chainOf : Cls → List HF) (fl : Flags) (s : Nat) :
           let r := evx chainOf fl s fuel (chainOf c) (chainOf c) j 1 ((f.id, i) :: act) (tr ++ [.call f.id, .inst c])
           let m := r.marks.erase (f.id, i)
           match r.res with
-          | .err false => ⟨.err false, r.tr, m⟩
+          | .err false => ⟨.err false, r.tr, excUnmark r.marks (f.id, i)⟩
           | .err true => evx chainOf fl s fuel full rest i depth m r.tr     -- `except AttributeError: return None`
           | .val (some x) => ⟨.val (some x), r.tr, m⟩
           | .val none => evx chainOf fl s fuel full rest i depth m r.tr
@@ -92,7 +102,7 @@ def evx (chainOf : Cls → List HF) (fl : Flags) (s : Nat) :
           evx chainOf fl s fuel full rest i depth act (tr ++ [.cyc f.id])
         else if fl.needs f.id && s != 2 then
           -- the implementation raises; `finally` discards the mark set for this call
-          ⟨.err (s == 0), tr ++ [.call f.id], ((f.id, i) :: act).erase (f.id, i)⟩
+          ⟨.err (s == 0), tr ++ [.call f.id], excUnmark ((f.id, i) :: act) (f.id, i)⟩
         else
           match v with
           | some x => ⟨.val (some x), tr ++ [.call f.id], ((f.id, i) :: act).erase (f.id, i)⟩
